@@ -20,7 +20,9 @@ import (
 //     daemon's unit object do), update the record strictly alternately; one of them repeats exactly
 //     the values it wrote before. After every update the stored record must be the one just written:
 //     an update may not be skipped because it equals what the writer believes to be there.
+// (3) readers of the in-memory copy while it is refreshed from the file: see c14mem.go.
 func runC14Turns(run *ev.Run) {
+	runC14Memory(run)
 	dir := filepath.Join(workDir(), "c14turns")
 	_ = os.MkdirAll(dir, 0o755)
 	// ---- (1)
